@@ -293,20 +293,38 @@ func yamlOfW(n *sx.Node, name, indent string, b *strings.Builder, top bool, styl
 	}
 }
 
-// loadW builds the template, attaches it to the environment and runs the real load.
-func loadW(in *sx.Node) (workflow.Role, error) {
+// loadTree renders the template, unmarshals it, hangs it under `parent` (nil: no
+// environment) and runs the real load.
+func loadTree(style int, tree *sx.Node, parent workflow.Updatable, baseConfigStack map[string]string) (workflow.Role, error) {
 	confOnce.Do(func() { viper.Set("configServiceUri", "mock://") })
 	var b strings.Builder
-	yamlOfW(in.At(2), "r", "", &b, true, in.At(0).Int())
+	yamlOfW(tree, "r", "", &b, true, style)
 	root := workflow.NewAggregatorRole("", nil)
 	if err := yaml.Unmarshal([]byte(b.String()), root); err != nil {
 		return nil, fmt.Errorf("yaml: %v\n%s", err, b.String())
 	}
+	if parent != nil {
+		workflow.VerifC14SetParent(root, parent)
+	}
+	workflow.LinkChildrenToParents(root)
+	repo := theRepo
+	if err := root.ProcessTemplates(&repo, nil, baseConfigStack); err != nil {
+		return nil, fmt.Errorf("ProcessTemplates: %v\n%s", err, b.String())
+	}
+	if !root.IsEnabled() {
+		return nil, fmt.Errorf("root disabled after load\n%s", b.String())
+	}
+	return root, nil
+}
+
+// loadW builds the template, attaches it to the environment and runs the real load.
+func loadW(in *sx.Node) (workflow.Role, error) {
+	var parent workflow.Updatable
 	if env := in.At(1); env.Len() == 3 {
 		gd := gera.MakeMapWithMap(kvMap(env.At(0)))
 		gv := gera.MakeMapWithMap(kvMap(env.At(1)))
 		uv := gera.MakeMapWithMap(kvMap(env.At(2)))
-		adapter := workflow.NewParentAdapter(
+		parent = workflow.NewParentAdapter(
 			func() uid.ID { return uid.NilID() },
 			func() uint32 { return 0 },
 			func() gera.Map[string, string] { return gd },
@@ -314,17 +332,63 @@ func loadW(in *sx.Node) (workflow.Role, error) {
 			func() gera.Map[string, string] { return uv },
 			func(event.Event) {},
 		)
-		workflow.VerifC14SetParent(root, adapter)
 	}
-	workflow.LinkChildrenToParents(root)
-	repo := theRepo
-	if err := root.ProcessTemplates(&repo, nil, map[string]string{}); err != nil {
-		return nil, fmt.Errorf("ProcessTemplates: %v\n%s", err, b.String())
+	return loadTree(in.At(0).Int(), in.At(2), parent, map[string]string{})
+}
+
+type loadedPair struct {
+	r workflow.Role
+	t *sx.Node
+}
+
+// pairLoaded: the loaded tree must have the shape the template describes (pruning and
+// disabling are C15's subject: a deviation here is not a verdict of C14); pre-order.
+func pairLoaded(root workflow.Role, loaded *sx.Node) ([]loadedPair, error) {
+	var pre []loadedPair
+	var walk func(r workflow.Role, t *sx.Node) error
+	walk = func(r workflow.Role, t *sx.Node) error {
+		pre = append(pre, loadedPair{r, t})
+		kids := r.GetRoles()
+		if len(kids) != t.Len()-5 {
+			return fmt.Errorf("loaded tree has %d children at %s, template describes %d", len(kids), r.GetPath(), t.Len()-5)
+		}
+		for i, c := range kids {
+			if err := walk(c, t.At(5+i)); err != nil {
+				return err
+			}
+		}
+		return nil
 	}
-	if !root.IsEnabled() {
-		return nil, fmt.Errorf("root disabled after load\n%s", b.String())
+	if err := walk(root, loaded); err != nil {
+		return nil, err
 	}
-	return root, nil
+	return pre, nil
+}
+
+// applyOp runs one runtime write on the addressed role of the loaded tree.
+func applyOp(root workflow.Role, o *sx.Node) error {
+	a, _ := addrOf(o.At(1))
+	r := root
+	for _, i := range a[1:] {
+		r = r.GetRoles()[i]
+	}
+	switch o.At(0).Str() {
+	case "S":
+		r.SetRuntimeVar(o.At(2).Str(), o.At(3).Str())
+	case "D":
+		r.DeleteRuntimeVar(o.At(2).Str())
+	case "G", "X":
+		g, ok := r.(globalVarRole)
+		if !ok {
+			return fmt.Errorf("role %T has no SetGlobalRuntimeVar", r)
+		}
+		if o.At(0).Str() == "G" {
+			g.SetGlobalRuntimeVar(o.At(2).Str(), o.At(3).Str())
+		} else {
+			g.DeleteGlobalRuntimeVar(o.At(2).Str())
+		}
+	}
+	return nil
 }
 
 func runWrites(in *sx.Node) (string, error) {
@@ -342,28 +406,8 @@ func runWrites(in *sx.Node) (string, error) {
 	if err != nil {
 		return "", err
 	}
-	// the loaded tree must have the shape the template describes (pruning and
-	// disabling are C15's subject: a deviation here is not a verdict of C14)
-	type pair struct {
-		r workflow.Role
-		t *sx.Node
-	}
-	var pre []pair
-	var walk func(r workflow.Role, t *sx.Node) error
-	walk = func(r workflow.Role, t *sx.Node) error {
-		pre = append(pre, pair{r, t})
-		kids := r.GetRoles()
-		if len(kids) != t.Len()-5 {
-			return fmt.Errorf("loaded tree has %d children at %s, template describes %d", len(kids), r.GetPath(), t.Len()-5)
-		}
-		for i, c := range kids {
-			if err := walk(c, t.At(5+i)); err != nil {
-				return err
-			}
-		}
-		return nil
-	}
-	if err := walk(root, loaded); err != nil {
+	pre, err := pairLoaded(root, loaded)
+	if err != nil {
 		return "", err
 	}
 	for _, p := range pre {
@@ -371,31 +415,9 @@ func runWrites(in *sx.Node) (string, error) {
 			p.r.SetRuntimeVars(m)
 		}
 	}
-	find := func(a []int) workflow.Role {
-		r := root
-		for _, i := range a[1:] {
-			r = r.GetRoles()[i]
-		}
-		return r
-	}
 	for _, o := range in.At(4).List {
-		a, _ := addrOf(o.At(1))
-		r := find(a)
-		switch o.At(0).Str() {
-		case "S":
-			r.SetRuntimeVar(o.At(2).Str(), o.At(3).Str())
-		case "D":
-			r.DeleteRuntimeVar(o.At(2).Str())
-		case "G", "X":
-			g, ok := r.(globalVarRole)
-			if !ok {
-				return "", fmt.Errorf("role %T has no SetGlobalRuntimeVar", r)
-			}
-			if o.At(0).Str() == "G" {
-				g.SetGlobalRuntimeVar(o.At(2).Str(), o.At(3).Str())
-			} else {
-				g.DeleteGlobalRuntimeVar(o.At(2).Str())
-			}
+		if err := applyOp(root, o); err != nil {
+			return "", err
 		}
 	}
 	obs := sx.L()
